@@ -1231,13 +1231,28 @@ impl<'s> Semantics<'s> {
 
         let condition = self.cc_condition()?;
 
+        // In 64-bit mode a 32-bit destination register is zero-extended into the full
+        // register even when the condition is false.
+        let mut not_taken_index = tail_index;
+        if detail.operands[0].type_ == x86_op_type::X86_OP_REG {
+            let dst = self.get_register(detail.operands[0].reg())?;
+            if dst.bits() == 32 && !dst.is_full() {
+                let block = control_flow_graph.new_block()?;
+                dst.set(block, dst.get()?)?;
+                not_taken_index = block.index();
+            }
+        }
+
         control_flow_graph.conditional_edge(head_index, block_index, condition.clone())?;
         control_flow_graph.conditional_edge(
             head_index,
-            tail_index,
+            not_taken_index,
             Expr::cmpeq(condition, expr_const(0, 1))?,
         )?;
         control_flow_graph.unconditional_edge(block_index, tail_index)?;
+        if not_taken_index != tail_index {
+            control_flow_graph.unconditional_edge(not_taken_index, tail_index)?;
+        }
 
         control_flow_graph.set_entry(head_index)?;
         control_flow_graph.set_exit(tail_index)?;
